@@ -541,6 +541,87 @@ def corpus():
     return cases
 
 
+def check_slice(cc, v):
+    """the characters carrying the check value (stratification key of the constructed-valid codes)"""
+    if cc == "FR":
+        return v[:2]
+    if cc in ("BE", "GB") and len(v) >= 9 and v[:9].isdigit():
+        return v[7:9] if cc == "GB" else v[-2:]
+    if cc == "NL":
+        return v[8:]
+    return v[-1:]
+
+
+def boundary_codes(cc, valids):
+    """extreme bodies (all 0, all 9, leading/trailing 1) of every length and letter skeleton seen among the valid codes, with
+    the first two and the last two digit positions varied exhaustively (so the one with the right check value is among them);
+    plus the families a validator treats by numeric range"""
+    out = []
+    seen = set()
+    protos = {}
+    for v in valids:
+        protos.setdefault("".join("9" if ch in D else ch for ch in v), v)
+    for proto in list(protos.values())[:6]:
+        digs = [i for i, ch in enumerate(proto) if ch in D]
+        if len(digs) < 3:
+            continue
+        for fill in "09":
+            for special in (None, 0, -1, 1):
+                body = list(proto)
+                for i in digs:
+                    body[i] = fill
+                if special is not None:
+                    body[digs[special]] = "1" if fill == "0" else "8"
+                for pos in (digs[-2:], digs[:2]):
+                    for a in D:
+                        for b in D:
+                            t = list(body)
+                            t[pos[0]] = a
+                            t[pos[1]] = b
+                            x = "".join(t)
+                            if x not in seen:
+                                seen.add(x)
+                                out.append(x)
+    if cc == "GB":
+        for i in range(1000):
+            out.append("GD%03d" % i)
+            out.append("HA%03d" % i)
+        for num in (0, 1, 99999, 100000, 100001, 999998, 999999, 1000000, 1000001, 1000002, 9489999, 9490000, 9490001, 9490002,
+                    9699999, 9700000, 9700001, 9989999, 9990000, 9990001, 9990002, 9999999):
+            b = "%07d" % num
+            cd = 97 - gb_sum(b) % 97
+            cd2 = cd - 55 if cd >= 55 else cd + 42
+            for k in {cd, cd2, (cd + 1) % 100, (cd2 + 1) % 100, 0, 97, 98, 99}:
+                out.append(b + "%02d" % k)
+                out.append(b + "%02d" % k + "001")
+    return out
+
+
+def special_forms(rng, cc, quick):
+    """alternative written forms that a regime's own normaliser transforms (beyond separators / prefix / case)"""
+    out = []
+    if cc == "FR":
+        # bare SIREN: the normaliser prepends the two-digit VAT key - every key value 00..96, Luhn-valid and not
+        want = 3 if quick else 40
+        have = {}
+        tries = 0
+        while tries < 400000 and (len(have) < 97 or min(have.values()) < want):
+            tries += 1
+            b = rd(rng, 8)
+            b += str(luhn_cd(b))
+            k = fr_key(b)
+            if have.get(k, 0) < want:
+                have[k] = have.get(k, 0) + 1
+                out.append(b)
+                out.append(formatted(rng, "FR", b))
+                out.append(b[:8] + rng.choice(D))
+    if cc == "BE":
+        for _ in range(100 if quick else 3000):
+            b = rng.choice("123456789") + rd(rng, 6)          # nine digits, without the leading zero
+            out.append(b + "%02d" % (97 - int("0" + b) % 97))
+    return out
+
+
 def gen(c, quick):
     """yields one batch of cases per regime (bounded memory in the thorough tier)"""
     rng = c.rng
@@ -553,13 +634,21 @@ def gen(c, quick):
         valids = []
         seen = set()
         tries = 0
-        while len(valids) < NV and tries < NV * 20:
+        strata = {}
+        while len(valids) < NV and tries < NV * 40:
             tries += 1
             v = make_valid(rng, cc)
-            if v not in seen:
+            k = check_slice(cc, v)
+            # stratified by check value: no value may take more than its share while others are missing
+            if v not in seen and (strata.get(k, 0) < 3 or tries > NV * 8 or strata.get(k, 0) <= NV // 60):
                 seen.add(v)
+                strata[k] = strata.get(k, 0) + 1
                 valids.append(v)
         incc = cc
+        for b in boundary_codes(cc, valids):
+            cases.append((cc + "/boundary", incc, b, None))
+        for raw in special_forms(rng, cc, quick):
+            cases.append((cc + "/special-form", incc, raw, None))
         for v in valids:
             cases.append((cc + "/valid", incc, v, v))
             for e in edits(cc, v):
